@@ -86,6 +86,10 @@ impl CombinedFilter {
         ensures final(self).keys() == old(self).keys().insert(k@)
     { unimplemented!() }
 }
+// the key set covered by the filters serialised into an index-file meta buffer (bincode of Bloom
+// and RangeFilter: TRUSTED round trip), and by a (bloom, range) pair
+pub uninterp spec fn ser_keys(buf: Seq<u8>) -> Set<Seq<u8>>;
+pub uninterp spec fn combined_keys(b: Option<Bloom>, r: RangeFilter) -> Set<Seq<u8>>;
 
 // the on-disk file index (verified in units bptree_*); here an opaque answer function
 #[verifier::external_body]
@@ -94,6 +98,8 @@ impl FileIndexStub {
     pub uninterp spec fn disk_latest(&self, k: Seq<u8>) -> Option<RecordHeader>;
     pub uninterp spec fn disk_all(&self, k: Seq<u8>) -> Option<Seq<RecordHeader>>;
     pub uninterp spec fn disk_count(&self) -> usize;
+    // the meta block (serialised filters) stored in the index file
+    pub uninterp spec fn meta_bytes(&self) -> Seq<u8>;
     #[verifier::external_body]
     pub fn get_latest(&self, k: &KeyT) -> (r: Result<Option<RecordHeader>, VErr>)
         ensures r.is_ok() ==> r->Ok_0 == self.disk_latest(k@)
@@ -157,7 +163,7 @@ impl FileIndexStub {
     #[verifier::external_body]
     pub fn from_records(path: (), io: (), headers: &InMemoryIndex, meta: Vec<u8>, recreate_index_file: bool, blob_size: u64) -> (r: Result<FileIndexStub, VErr>)
         requires sum_len(headers@) <= usize::MAX
-        ensures r.is_ok() ==> r->Ok_0.agrees_with(headers@)
+        ensures r.is_ok() ==> r->Ok_0.agrees_with(headers@) && r->Ok_0.meta_bytes() == meta@
     { unimplemented!() }
     #[verifier::external_body]
     pub fn get_records_headers(&self, blob_size: u64) -> (r: Result<(InMemoryIndex, usize), VErr>)
@@ -167,7 +173,7 @@ impl FileIndexStub {
     #[verifier::external_body]
     pub fn file_size(&self) -> (r: u64) { unimplemented!() }
     #[verifier::external_body]
-    pub fn read_meta(&self) -> (r: Result<BytesMut, VErr>) { unimplemented!() }
+    pub fn read_meta(&self) -> (r: Result<BytesMut, VErr>) ensures r.is_ok() ==> r->Ok_0@ == self.meta_bytes() { unimplemented!() }
     #[verifier::external_body]
     pub fn clone(&self) -> (r: FileIndexStub) ensures r == *self { unimplemented!() }
 }
@@ -176,9 +182,14 @@ impl FileIndexStub {
 pub struct Bloom { _p: u8 }
 #[verifier::external_body]
 pub struct RangeFilter { _p: u8 }
+impl RangeFilter {
+    // an empty range filter (covers nothing that is asserted anywhere)
+    #[verifier::external_body]
+    pub fn new() -> (r: RangeFilter) { unimplemented!() }
+}
 impl CombinedFilter {
     #[verifier::external_body]
-    pub fn new(bloom: Option<Bloom>, range: RangeFilter) -> (r: CombinedFilter) { unimplemented!() }
+    pub fn new(bloom: Option<Bloom>, range: RangeFilter) -> (r: CombinedFilter) ensures r.keys() == combined_keys(bloom, range) { unimplemented!() }
     #[verifier::external_body]
     pub fn clear_filter(&mut self) ensures final(self).keys() == Set::<Seq<u8>>::empty() { unimplemented!() }
     #[verifier::external_body]
